@@ -13,6 +13,7 @@ Item selectors (strings):
     impl TYPE::fn NAME           one method out of the inherent impl(s) of TYPE
     impl TRAIT for TYPE::fn NAME one method out of a trait impl
     mod NAME                     a whole inline module
+    consts PREFIX                every const item whose name starts with PREFIX
 """
 import hashlib
 import re
@@ -286,6 +287,17 @@ class Source:
             if not impls:
                 raise SliceError(f'{self.path}: impl `{sel[5:]}` not found')
             return [src[s:e] for (s, e, _) in impls]
+        m = re.match(r'consts\s+(\w+)$', sel)
+        if m:
+            # every `const <PREFIX>...` item, in source order
+            out = []
+            for mm in re.finditer(r'\bconst\s+(' + re.escape(m.group(1)) + r'\w*)\s*:', code):
+                s0 = _item_start(src, code, mm.start())
+                e0 = _item_end(code, mm.start())
+                out.append(src[s0:e0])
+            if not out:
+                raise SliceError(f'{self.path}: no const with prefix `{m.group(1)}`')
+            return out
         m = re.match(r'(fn|struct|enum|const|static|type|trait|mod|union|macro_rules)\s+(\w+)$', sel)
         if not m:
             raise SliceError(f'bad selector `{selector}`')
